@@ -20,7 +20,7 @@ Import ListNotations.
 Local Open Scope N_scope.
 
 Inductive str1 := Short (b : list N) | Long (h : list N) (n : N) (c : N).
-Inductive st := StOk | StLimit.                 (* B_NO_ERROR | B_RESOURCE_LIMIT (allocation never fails in the model) *)
+Inductive st := StOk | StErr.                   (* B_NO_ERROR | any error (B_RESOURCE_LIMIT, B_BAD_DATA; allocation never fails in the model) *)
 
 (* a `const String &` argument: a separate String holding these bytes, or the subject itself *)
 Inductive sarg := ALit (b : list N) | ASelf.
@@ -83,6 +83,11 @@ Inductive out1 :=
 Section L1.
 Variables (M TH PG OV : N).    (* max short length; growth threshold, page size, malloc overhead *)
 Variable (jk : N).
+(* [fixed = true] is the code with the two repairs proposed by this check (findings C17-F1, C17-F2):
+   EnsureBufferSize() refuses a buffer size that GetNextBufferSize()'s uint32 arithmetic wrapped below
+   the request, and Unflatten() returns the unflattener's error when no terminated string was read.
+   [fixed = false] is the tree as pinned; it is kept for the [..._refuted] lemmas and for replaying. *)
+Variable (fixed : bool).
 
 Definition is_long (s : str1) : bool := match s with Long _ _ _ => true | Short _ => false end.
 Definition buf (s : str1) : list N := match s with Short b => b | Long h _ _ => h end.
@@ -130,8 +135,9 @@ Definition ensure (s : str1) (req : N) (retain shrink : bool) : st * str1 :=
   if (if shrink then req =? bl else req <=? bl) then (StOk, s) else
   let dyn := is_long s in
   let nb := if shrink || (req <=? M + 1) || ((slen s =? 0) && negb dyn) then req else next_buf_size req in
+  if fixed && (nb <? req) then (StErr, s) else
   if nb =? 0 then (StOk, clear_and_flush s) else
-  if 2147483648 <=? nb then (StLimit, s) else
+  if 2147483648 <=? nb then (StErr, s) else
   let old := slen s in
   let small := shrink && (nb <=? M + 1) in
   let nml := nb - 1 in
@@ -199,7 +205,7 @@ Definition append_s (s : str1) (o : option src) : str1 :=
     end
   else s.
 
-(* String::operator+=(const char *) *)
+(* String::operator+=(const char-ptr) *)
 Definition append_c (s : str1) (c : carg) : str1 :=
   match cregion s c with
   | None => s
@@ -230,7 +236,7 @@ Definition insert_aux (s : str1) (idx : N) (r : option (list N)) (loc : bool) (n
     if (nthN 0 r0 =? 0) || (n =? 0) then (StOk, s) else
     let '(r1, n1) := if loc then (let t := takeN n (cstr r0) in (t ++ [0], N.min (lenN t) n)) else (r0, n) in
     let total64 := n1 * count in
-    if (2147483646 <=? total64 + slen s) then (StLimit, s) else
+    if (2147483646 <=? total64 + slen s) then (StErr, s) else
     let total := u32 total64 in
     if total =? 0 then (StOk, s) else
     let old := slen s in
@@ -269,7 +275,7 @@ Definition ctor_copy_pre (o : src) (extra : N) : str1 :=
 Definition ctor_pre_lit (pre : N) (l : list N) : str1 :=
   snd (set_cstr (snd (prealloc empty1 pre)) (CLit l) NOLIMIT).
 
-(* operator-=(char), operator-=(const String &), operator-=(const char *) *)
+(* operator-=(char), operator-=(const String &), operator-=(const char-ptr) *)
 Definition cut (s : str1) (idx k : N) : str1 :=         (* memmove(b+idx, b+idx+k, 1+len-(idx+k)); SetLength(len-k) *)
   let len := slen s in
   let b := buf s in
@@ -337,7 +343,8 @@ Definition replace_s1 (s : str1) (rm wm : option src) (max from : N) : str1 * Z 
 Definition flatten1 (s : str1) : list N := takeN (slen s + 1) (buf s).
 Definition unflatten1 (s : str1) (bytes : list N) : st * str1 :=
   if list_eqb (cstr bytes) bytes          (* no NUL among the available bytes (also: no bytes at all) *)
-  then set_cstr s CNull NOLIMIT           (* ReadCString() returned NULL; its error stays in the unflattener *)
+  then (if fixed then (StErr, s)          (* ReadCString() returned NULL: the unflattener's error is returned *)
+        else set_cstr s CNull NOLIMIT)    (* pinned: SetCstr(NULL) clears the string and reports success *)
   else set_cstr s (CLit (cstr bytes)) NOLIMIT.
 
 (* ------------------------------------------------------------------ producers *)
@@ -605,7 +612,7 @@ Definition mutate0 (l : list N) (o : op) : option (list N * out0) :=
   | OReverse => Some (rev l, R0None)
   | OReplaceCh a b m f => let '(l', k) := l0_replace_ch l a b m f in Some (l', R0Nat k)
   | OReplaceS rm wm m f => let '(l', k) := l0_replace_sub l (sb rm) (sb wm) m f in Some (l', R0Int (Z.of_N k))
-  | OUnflatten bytes => Some (cstr bytes, R0St StOk)
+  | OUnflatten bytes => Some (if list_eqb (cstr bytes) bytes then (l, R0St StErr) else (cstr bytes, R0St StOk))
   | OIndexOfC c from => Some (l, R0Int (l0_index_of l (cb c) from))
   | OFlatten => Some (l, R0Bytes (l ++ [0]))
   | _ => None
@@ -638,8 +645,8 @@ Definition abs_out (M : N) (o : out1) : out0 :=
   | R1Bytes b => R0Bytes b | R1Str r => R0Str (abs M r) | R1StrNat r n => R0StrNat (abs M r) n
   end.
 
-Definition run1 (M TH PG OV jk : N) (ops : list op) : str1 * list out1 :=
-  fold_left (fun acc o => let '(s, outs) := acc in let '(s', r) := step1 M TH PG OV jk s o in (s', outs ++ [r]))
+Definition run1 (M TH PG OV jk : N) (fixed : bool) (ops : list op) : str1 * list out1 :=
+  fold_left (fun acc o => let '(s, outs) := acc in let '(s', r) := step1 M TH PG OV jk fixed s o in (s', outs ++ [r]))
             ops (empty1 M jk, []).
 Definition run0 (ops : list op) : list N * list out0 :=
   fold_left (fun acc o => let '(l, outs) := acc in let '(l', r) := step0 l o in (l', outs ++ [r])) ops ([], []).
